@@ -186,6 +186,26 @@ Theorem C08_interrupt_refuted_on_except_exception :
 Proof. vm_compute. repeat split; auto. Qed.
 Print Assumptions C08_interrupt_refuted_on_except_exception.
 
+(* KNOWN FINDING (tools/findings/C08.json; not repaired).  What the sweep does not reach is the CONTENT of a healthy module
+   of a failed design: the passes before the failing one have completed it, and - unlike a module whose elaboration
+   succeeded, which refuses additions - it still accepts them; no completed pass runs its body on it again, whatever
+   that body would do with the additions.  Top(2) -> [Sib(0); Bad(1)]; the rewriting pass 1 fails in Bad after pass 0
+   completed all three; then Sib alone: for EVERY behaviour of pass 0 on Sib (even raising `code`) the call succeeds
+   without running it.  (In the code: port references added to Sib are never resolved, and the call reports a spurious
+   "Missing connection" where a fresh process returns a package.) *)
+Theorem C08_completed_pass_never_sees_later_additions code :
+  let c1 := {| c_kids := [(0, []); (1, []); (2, [0; 1])]%nat;
+               c_passes := [{| pid := 0; prw := true; pmk := false |}; {| pid := 1; prw := true; pmk := false |}];
+               c_tops := [2%nat]; c_fail := [(1%nat, 1%nat, 7)]; c_export := true |} in
+  let c2 := {| c_kids := [(0, []); (1, []); (2, [0; 1])]%nat;
+               c_passes := [{| pid := 0; prw := true; pmk := false |}; {| pid := 1; prw := true; pmk := false |}];
+               c_tops := [0%nat]; c_fail := [(0%nat, 0%nat, code)]; c_export := true |} in
+  let s1 := fst (fst (do_call repaired init c1)) in
+  snd (fst (do_call repaired init c1)) = Some (CE 7) /\ memp (0, 0)%nat (done s1) = true /\ memn 0%nat (elab s1) = false /\
+  snd (fst (do_call repaired s1 c2)) = None /\ snd (do_call repaired s1 c2) = [0%nat].
+Proof. vm_compute. repeat split. Qed.
+Print Assumptions C08_completed_pass_never_sees_later_additions.
+
 (* the model's recursion bound (number of modules of the design + 1) is never the reason an elaboration fails: CFuel is
    unreachable for every pass list, tops, design graph (cyclic ones included), oracle and starting state.
    (The EXPORT walk of a cyclic graph that no pass has looked at - an empty pass list - does exhaust it, as the code
